@@ -2,6 +2,7 @@ import Operon.Lemmas.C14
 import Operon.Lemmas.C15
 import Operon.Lemmas.C14Tr
 import Operon.Lemmas.C14Held
+import Operon.Lemmas.C14Sorted
 import Operon.Model.CoordProbe
 import Operon.Gen.CoordExecProbe
 import Operon.Gen.CoordWatchdogProbe
@@ -85,6 +86,33 @@ theorem c14_held_resource_survives_other_calls (s : Sys) (op : Nat) (prio : Int)
     · cases post <;> rfl
     · rfl
   rw [hsys]; exact h2
+
+/-- **Waiting lists are sorted in every reachable state** (`AllSorted`: every registered lock's waiting list is in
+    descending priority order — the hypothesis `hsorted` of `c14_unobtained_untouched` and
+    `c14_held_resource_survives_other_calls`).  It holds in the empty system and is kept by `register_resource`, by
+    every history of controller calls (start / acquire / release / complete / abort / kill) mixed with life-cycle calls
+    (`xrun`), by everything a callback can do to the system (kill, shutdown, watchdog run, maintenance run) and by a
+    whole `execute_operation` call with any adversary: `_add_to_waiting` sorts whatever list it finds
+    (`addWaiting_sorted`: no hypothesis on the list), releases do not touch the list, endings only filter it. -/
+theorem c14_waiting_lists_stay_sorted :
+    AllSorted ({} : Sys) ∧
+    (∀ (s : Sys) (r : Nat) (pre : Bool), AllSorted s → AllSorted (s.register r pre)) ∧
+    (∀ (h : HSt) (ops : List XOp), AllSorted h.sys → AllSorted (xrun h ops).sys) ∧
+    (∀ (s : Sys) (a : WorkAct), AllSorted s → AllSorted (applyAct s a)) ∧
+    (∀ (s : Sys) (op : Nat) (prio : Int) (req : List Nat) (adv : Adv), AllSorted s →
+      AllSorted (exec s op prio req adv).sys) :=
+  ⟨allSorted_empty, fun _ r pre h => allSorted_register h r pre, fun _ ops h => allSorted_xrun ops h,
+   fun _ a h => allSorted_applyAct h a, fun _ op prio req adv h => allSorted_exec h op prio req adv⟩
+
+/-- `c14_unobtained_untouched` at any point of any history that starts from a system with sorted waiting lists (e.g.
+    freshly registered resources): the sortedness hypothesis is discharged by `c14_waiting_lists_stay_sorted`. -/
+theorem c14_unobtained_untouched_at_every_point_of_a_history (h0 : HSt) (ops : List XOp) (hs0 : AllSorted h0.sys)
+    (op : Nat) (prio : Int) (req : List Nat) (adv : Adv) (r : Nat) (l : Lock)
+    (hl : (xrun h0 ops).sys.locks r = some l) (hforeign : l.owner ≠ some op)
+    (hnotwaiting : ∀ e ∈ l.waiting, e.1 ≠ op) (hact : adv.SelfOnly op)
+    (hnever : ∀ res, Ev.acq r (some res) ∈ (exec (xrun h0 ops).sys op prio req adv).log → res = .blocked) :
+    (exec (xrun h0 ops).sys op prio req adv).sys.locks r = some l :=
+  c14_unobtained_untouched _ op prio req adv r l hl hforeign (allSorted_xrun ops hs0 r l hl) hnotwaiting hact hnever
 
 /-- an unregistered id stays unregistered (nothing is created on the way) -/
 theorem c14_unregistered_stays_unregistered (s : Sys) (c : Ctx) (r : Nat) (h : s.locks r = none) :
@@ -645,6 +673,11 @@ example : (s2.locks 1).map (fun l => (l.owner, l.preempt, l.waiting)) = some (so
     (exec s2 1 9 [2, 1] advOk).log = [.cp 0 true, .acq 2 (some .acquired), .acq 1 (some .blocked), .abort] ∧
     (exec s2 1 9 [2, 1] advOk).sys.locks 1 = s2.locks 1 ∧
     (cellExecute s2 1 9 [2, 1] advOk .ok).sys.locks 1 = s2.locks 1 := by decide
+
+/-- `s0`, `s1`, `s2` have sorted waiting lists (hypothesis of `c14_unobtained_untouched_at_every_point_of_a_history`) -/
+example : AllSorted s0 ∧ AllSorted s1 ∧ AllSorted s2 := by
+  have h0 : AllSorted s0 := allSorted_register (allSorted_register allSorted_empty 1 false) 2 true
+  exact ⟨h0, allSorted_acquire (allSorted_start h0 7 1) _ 2, allSorted_acquire (allSorted_start h0 7 1) _ 1⟩
 
 /-- preemption: with priority 3 the operation takes r2 from op 7, commits, and r2 is free afterwards -/
 example : (exec s1 1 3 [2] advOk).success = true ∧
